@@ -239,6 +239,12 @@ class SchedulerScriptAdapter(ScriptAdapter):
                 LOGGER.error(msg)
                 raise ValueError(msg)
 
+            # A launcher token without an allocation next to ones with an
+            # allocation gets the step's full nodes and procs.
+            if self.launcher_var in cmd:
+                pcmd = self.get_parallelize_command(procs, nodes, **addl_args)
+                cmd = cmd.replace(self.launcher_var, pcmd)
+
             return cmd
         else:
             # 3. Two smaller cases here. If we see the launcher token WITHOUT
